@@ -1135,12 +1135,14 @@ def _finalize_std(df, count_column, sum_column, sum2_column, **kwargs):
     return _adjust_for_arrow_na(res, result, check_for_isna=True)
 
 
-def _cum_agg_aligned(part, cum_last, index, columns, func, initial):
+def _cum_agg_aligned(part, cum_last, index, columns, func, initial, name=no_default):
     align = cum_last.reindex(part.set_index(index).index, fill_value=initial)
     # a group without a valid value so far (``last`` skips them) starts afresh
     align = align.fillna(initial)
     align.index = part.index
-    return func(part[columns], align)
+    result = func(part[columns], align)
+    # (a Series without name, e.g. cumcount, travels as the column ``0``)
+    return result if name is no_default else result.rename(name)
 
 
 def _cum_agg_filled(a, b, func, initial):
